@@ -60,6 +60,58 @@ Theorem cov_chan_entry_spec : forall xa za xb zb : list Qc,
   = ss_batch (xa ++ xb) (za ++ zb).
 Proof. exact chan_entry. Qed.
 
+(* ---- AUC: trapezoid rule over the pairs, after a STABLE sort by x when reorder=True
+   (pairs with equal x keep their input order: the result is order-dependent inside x-ties, C12) ---- *)
+Theorem auc_trapz_spec : forall reorder xs ys,
+  exists l, auc_row reorder xs ys = trapz l /\ Permutation.Permutation (combine xs ys) l
+            /\ (if reorder then Sorted.StronglySorted le1 l else l = combine xs ys).
+Proof. exact auc_row_spec. Qed.
+Theorem trapz_rule : forall a b r, trapz (a :: b :: r) = (fst b - fst a) * (snd a + snd b) * half + trapz (b :: r).
+Proof. exact trapz_step. Qed.
+Theorem auc_sort_is_stable : forall p q l, fst p = fst q -> ins_pair p (q :: l) = p :: q :: l.
+Proof. exact ins_pair_stable. Qed.
+
+(* ---- Throughput (definitional): items / seconds, 0.0 before any update ---- *)
+Theorem throughput_spec : forall bs : list (Qc * Qc),
+  fold_left tp_upd bs (0, 0) = (0 + sumQ (map fst bs), 0 + sumQ (map snd bs)).
+Proof. intros bs. exact (tp_updates bs (0, 0)). Qed.
+
+(* ---- PSNR: exact sufficient statistics (count, sum of squared errors, target range); the value is the
+   symbolic node 10*log10(data_range^2 / (sse/n)) ---- *)
+Theorem psnr_suffstat_fixed_range : forall r bs s,
+  p_n (fold_left (p_upd (Some r)) bs s) = p_n s + sumQ (map (fun b => qofnat (List.length (snd b))) bs)
+  /\ p_sse (fold_left (p_upd (Some r)) bs s) = p_sse s + sumQ (map p_sse_of bs)
+  /\ p_dr (fold_left (p_upd (Some r)) bs s) = p_dr s.
+Proof. exact psnr_updates_fixed. Qed.
+Theorem psnr_suffstat_auto_range : forall bs s,
+  p_n (fold_left (p_upd None) bs s) = p_n s + sumQ (map (fun b => qofnat (List.length (snd b))) bs)
+  /\ p_sse (fold_left (p_upd None) bs s) = p_sse s + sumQ (map p_sse_of bs).
+Proof. exact psnr_updates_auto. Qed.
+Theorem psnr_auto_range_spec : forall s b,
+  p_dr (p_upd None s b) = xsub (p_mx (p_upd None s b)) (p_mn (p_upd None s b))
+  /\ p_mx (p_upd None s b) = xmax (bmax (snd b)) (p_mx s) /\ p_mn (p_upd None s b) = xmin (bmin (snd b)) (p_mn s).
+Proof. exact psnr_auto_range. Qed.
+Theorem psnr_spec : forall dr sse n, n <> 0 -> sse <> 0 ->
+  psnr_ratio (Fin dr) sse n = Fin (dr * dr / (sse / n)).
+Proof. exact psnr_ratio_fin. Qed.
+
+(* ---- Perplexity: ignore_index filters exactly the masked positions; sum_log_probs is the log-linear form
+   sum over kept positions of ( ln(sum_j exp x_ij) - x_{i,t_i} ), num_total the number kept ---- *)
+Theorem perplexity_spec : forall ig rows ts,
+  snd (px_stat ig rows ts) = qofnat (List.length (px_kept ig rows ts))
+  /\ f_k (fst (px_stat ig rows ts)) = sumQ (map (fun rt => - nth (Z.to_nat (snd rt)) (fst rt) 0) (px_kept ig rows ts))
+  /\ f_logs (fst (px_stat ig rows ts)) = map (fun rt => (1, sumexp (fst rt))) (px_kept ig rows ts).
+Proof. exact px_stat_spec. Qed.
+
+(* ---- BinaryNormalizedEntropy: weights / positives are plain sums; a sample's cross entropy is the
+   log-linear form  -w t ln p - w (1-t) ln(1-p) ---- *)
+Theorem ne_counts_spec : forall l xs ts ws,
+  snd (fst (ne_row l xs ts ws)) = sumQ ws /\ snd (ne_row l xs ts ws) = sumQ (map2 Qcmult ws ts).
+Proof. exact ne_row_counts. Qed.
+Theorem ne_term_spec : forall x t w, x <> 0 -> 1 - x <> 0 -> w * t <> 0 -> w * (1 - t) <> 0 ->
+  ne_term false x t w = {| f_k := 0 + 0; f_logs := [(- (w * t), vq x); (- (w * (1 - t)), vq (1 - x))] |}.
+Proof. exact ne_term_prob. Qed.
+
 Print Assumptions max_spec.
 Print Assumptions min_spec.
 Print Assumptions r2_suffstat_spec.
@@ -70,3 +122,14 @@ Print Assumptions mse_denominator_spec.
 Print Assumptions mse_spec.
 Print Assumptions mse_unweighted_spec.
 Print Assumptions cov_chan_entry_spec.
+Print Assumptions auc_trapz_spec.
+Print Assumptions trapz_rule.
+Print Assumptions auc_sort_is_stable.
+Print Assumptions throughput_spec.
+Print Assumptions psnr_suffstat_fixed_range.
+Print Assumptions psnr_suffstat_auto_range.
+Print Assumptions psnr_auto_range_spec.
+Print Assumptions psnr_spec.
+Print Assumptions perplexity_spec.
+Print Assumptions ne_counts_spec.
+Print Assumptions ne_term_spec.
